@@ -487,7 +487,7 @@ def one_project(args):
 
 def run(tier, seed, replay=None):
     v = common.Verdict("C18", tier, seed)
-    n_proj = 40 if tier == "quick" else 600
+    n_proj = 100 if tier == "quick" else 600
     feats = {}
     n_inv = n_forms = n_probes = n_settled = 0
     samples = []
